@@ -30,7 +30,7 @@ let handle fields =
       "false " ^ string_of_int (if d = 0 then 6 else d)
     end
   | ["lex"; s] ->
-    (match spec_lex (bytes_of_hex s) with
+    (match spec_toks (bytes_of_hex s) with
      | None -> "N"
      | Some ts -> string_of_int (List.length ts) ^ " " ^ string_of_int (List.length (sig_toks ts)))
   | _ -> failwith "bad request"
